@@ -956,6 +956,13 @@ func (c *SpecCtx) call(n *ast.CallExpr) SV {
 			return c.bad("boundrecv: not a bound method value")
 		}
 		return SV{V: bm.Recv}
+	case "box":
+		// box(x): x converted to an interface value (x must have a static type: a parameter, local or field)
+		v := c.eval(n.Args[0])
+		if v.T == nil {
+			return c.bad("box: operand without static type")
+		}
+		return SV{V: e.box(c.st, v.V, v.T)}
 	case "closurename":
 		// closurename(f): name of the function literal a closure value was made from ("F$1"), or "<not a closure>"
 		v := c.eval(n.Args[0])
